@@ -424,7 +424,7 @@ static void artefact_case(World &W)
 	if (all.empty()) { W.res.cnt["probe.sign_failed"]++; return; }
 	std::vector<Pkt> pk;
 	if (!split_packets(all, pk) || pk.empty()) { W.violate("C20", "own_artefact_not_splittable", "emitted artefact does not consist of new-format packets"); return; }
-	bool damaged = false; std::string what = "none";
+	bool damaged = false, trailing_only = false; std::string what = "none";
 	size_t pi = (size_t)fa % pk.size();
 	switch (dmg)
 	{
@@ -437,6 +437,57 @@ static void artefact_case(World &W)
 	}
 	tmcg_openpgp_octets_t wire; join_packets(pk, wire);
 	if (!damaged && wire != all) { W.violate("C20", "reencoding_differs", "re-encoding the packets of an emitted artefact changes it"); return; }
+	// ---- optional ASCII armor around the artefact, damaged as text
+	int adm = (int)(p.get("armor", 0) % 8);        // 0 no armor, 1 armor untouched, 2 cut, 3 character replaced, 4 line deleted, 5 line duplicated, 6 radix-64 character of the body replaced, 7 checksum character replaced
+	if (adm)
+	{
+		tmcg_openpgp_armor_t at = (art == 0) ? TMCG_OPENPGP_ARMOR_PUBLIC_KEY_BLOCK : ((art == 1) ? TMCG_OPENPGP_ARMOR_SIGNATURE : TMCG_OPENPGP_ARMOR_MESSAGE);
+		std::string txt; PGP::ArmorEncode(at, wire, txt);
+		std::vector<std::string> lines; { std::string l; std::istringstream is(txt); while (std::getline(is, l)) lines.push_back(l); }
+		// body lines: between the blank line after the headers and the checksum line that starts with '='
+		size_t b0 = 0, b1 = 0, crc = 0;
+		for (size_t i = 1; i < lines.size(); i++) { std::string t = lines[i]; while (!t.empty() && (t[t.size() - 1] == '\r')) t.erase(t.size() - 1); if (t.empty() && !b0) b0 = i + 1; if (!t.empty() && t[0] == '=' && b0 && !crc) { crc = i; b1 = i; } }
+		static const char r64[] = "ABCDEFGHIJKLMNOPQRSTUVWXYZabcdefghijklmnopqrstuvwxyz0123456789+/";
+		bool adamaged = false; std::string awhat = "armor untouched";
+		switch (adm)
+		{
+			case 2: if (!txt.empty()) { txt.resize((size_t)fc * 131 % txt.size()); adamaged = true; awhat = "armor cut to " + std::to_string(txt.size()) + " characters"; W.res.cnt["fault.armor_cut"]++; } break;
+			case 3: if (!txt.empty()) { size_t o = (size_t)(fb * 7 + fc) % txt.size(); char c = (char)(0x20 + (fc * 11 + fb) % 95); if (txt[o] != c) { txt[o] = c; adamaged = true; awhat = "armor character " + std::to_string(o) + " replaced"; W.res.cnt["fault.armor_char"]++; } } break;
+			case 4: if (lines.size() > 1) { lines.erase(lines.begin() + (size_t)(fb + fc) % lines.size()); txt.clear(); for (size_t i = 0; i < lines.size(); i++) txt += lines[i] + "\n"; adamaged = true; awhat = "armor line deleted"; W.res.cnt["fault.armor_line_deleted"]++; } break;
+			case 5: if (!lines.empty()) { size_t i = (size_t)(fb + fc) % lines.size(); lines.insert(lines.begin() + i, lines[i]); txt.clear(); for (size_t q = 0; q < lines.size(); q++) txt += lines[q] + "\n"; adamaged = true; awhat = "armor line duplicated"; W.res.cnt["fault.armor_line_duplicated"]++; } break;
+			case 6: if (b0 && b1 > b0)
+				{
+					size_t li = b0 + (size_t)fb % (b1 - b0); std::string &l = lines[li];
+					size_t n = 0; for (size_t i = 0; i < l.size(); i++) if (strchr(r64, l[i]) && l[i]) n++;
+					if (n) { size_t want = (size_t)fc % n, seen = 0; for (size_t i = 0; i < l.size(); i++) if (strchr(r64, l[i]) && l[i]) { if (seen++ == want) { char c = r64[(size_t)(strchr(r64, l[i]) - r64 + 1 + fc % 63) % 64]; l[i] = c; break; } }
+						txt.clear(); for (size_t q = 0; q < lines.size(); q++) txt += lines[q] + "\n"; adamaged = true; awhat = "one radix-64 character of body line " + std::to_string(li - b0) + " replaced"; W.res.cnt["fault.armor_body_char"]++; }
+				} break;
+			case 7: if (crc && lines[crc].size() >= 5)
+				{
+					size_t i = 1 + (size_t)fc % 4; const char *q = strchr(r64, lines[crc][i]);
+					if (q && *q) { lines[crc][i] = r64[(size_t)(q - r64 + 1 + fb % 63) % 64]; txt.clear(); for (size_t z = 0; z < lines.size(); z++) txt += lines[z] + "\n"; adamaged = true; awhat = "checksum character replaced"; W.res.cnt["fault.armor_crc_char"]++; }
+				} break;
+		}
+		tmcg_openpgp_octets_t back;
+		tmcg_openpgp_armor_t got = PGP::ArmorDecode(txt, back);
+		W.res.cnt["probe.armor_decodes"]++;
+		if (!adamaged)
+		{
+			if (got != at || back != wire) { W.violate("C20", "armor_roundtrip", "ArmorDecode(ArmorEncode(x)) differs from x, " + std::to_string(wire.size()) + " octets, type " + std::to_string((int)at)); return; }
+		}
+		else
+		{
+			if (got == TMCG_OPENPGP_ARMOR_UNKNOWN) { W.res.cnt["probe.armor_refused"]++; W.S.hist.add(H_RESULT, 50, (uint64_t)adm, (uint64_t)art); return; }
+			// a changed radix-64 character of the body or of the checksum is a checksum mismatch: it must not be decoded
+			// (a character of the last quantum carries unused bits: replacing it can leave the octets unchanged)
+			if ((adm == 6 || adm == 7) && got == at && back != wire && !(back.size() > wire.size() && std::equal(wire.begin(), wire.end(), back.begin()))) { W.violate("C20", "armor_damage_undetected", awhat + " and the armor still decodes, to other octets, type " + std::to_string((int)at)); return; }
+			// damage to the checksum marker turns the checksum characters into trailing data behind the last packet
+			// (the checksum is optional): the packets themselves are intact, so neither acceptance nor refusal is judged
+			if (back.size() > wire.size() && std::equal(wire.begin(), wire.end(), back.begin())) { trailing_only = true; W.res.cnt["probe.armor_trailing_octets"]++; }
+			else if (back != wire) { damaged = true; dmg = 7; what = awhat; }
+		}
+		wire = back;
+	}
 	// ---- receiving node
 	W.set_clock(1, Ts + 10);
 	int outcome = 0;
@@ -448,9 +499,10 @@ static void artefact_case(World &W)
 		if (ok && pub) { self = pub->CheckSelfSignatures(&ring, 0); outcome = self ? 3 : 1; if (self) { (void)pub->Weak(0); } }
 		if (ok && pub) delete pub; // on failure the library has already released the object
 		// the only certification covers the key packet and the user ID: a changed bit in either must leave no valid self-signature
-		if (damaged && dmg == 2 && pi <= 1 && ok && self) W.violate("C20", "tampered_keyblock_selfsig_valid", "self-signature check succeeds although " + what + "; key=" + std::string(K.name));
-		if (damaged && dmg == 3 && pi == 2 && ok && self) W.violate("C20", "uncertified_keyblock_valid", "self-signature check succeeds although the certification was removed; key=" + std::string(K.name));
-		if (!damaged && !(ok && self)) W.violate("C20", "own_keyblock_rejected", "key block made by the library fails PublicKeyBlockParse/CheckSelfSignatures; key=" + std::string(K.name));
+		if (trailing_only) { /* not judged */ }
+		else if (damaged && dmg == 2 && pi <= 1 && ok && self) W.violate("C20", "tampered_keyblock_selfsig_valid", "self-signature check succeeds although " + what + "; key=" + std::string(K.name));
+		if (!trailing_only && damaged && dmg == 3 && pi == 2 && ok && self) W.violate("C20", "uncertified_keyblock_valid", "self-signature check succeeds although the certification was removed; key=" + std::string(K.name));
+		if (!trailing_only && !damaged && !(ok && self)) W.violate("C20", "own_keyblock_rejected", "key block made by the library fails PublicKeyBlockParse/CheckSelfSignatures; key=" + std::string(K.name));
 	}
 	else if (art == 1)
 	{
@@ -460,7 +512,7 @@ static void artefact_case(World &W)
 		if (ok && sig && sig->Good()) { (void)sig->CheckValidity(TK, 0); v = sig->VerifyData(K.sexp, doc, 0); }
 		if (ok && sig) delete sig;
 		outcome = (ok ? 1 : 0) | (v ? 2 : 0);
-		if (!damaged && !v) W.violate("C20", "own_signature_rejected", "untampered signature does not verify; key=" + std::string(K.name));
+		if (!trailing_only && !damaged && !v) W.violate("C20", "own_signature_rejected", "untampered signature does not verify; key=" + std::string(K.name));
 	}
 	else
 	{
@@ -470,8 +522,8 @@ static void artefact_case(World &W)
 		if (ok && msg) d = msg->Decrypt(seskey, 0, dec);
 		if (msg) delete msg;
 		outcome = (ok ? 1 : 0) | (d ? 2 : 0);
-		if (!damaged && !d) W.violate("C20", "own_message_not_decrypted", "message made by the library does not decrypt");
-		if (damaged && d && dmg != 4 && dmg != 3) W.violate("C20", "tampered_message_decrypts", "decryption succeeded although " + what);
+		if (!trailing_only && !damaged && !d) W.violate("C20", "own_message_not_decrypted", "message made by the library does not decrypt");
+		if (!trailing_only && damaged && d && dmg != 4 && dmg != 3) W.violate("C20", "tampered_message_decrypts", "decryption succeeded although " + what);
 	}
 	W.S.hist.add(H_RESULT, (uint64_t)outcome, (uint64_t)dmg, (uint64_t)art);
 }
@@ -814,6 +866,7 @@ static Plan pgp_generate(uint64_t seed, const Tier &tier)
 	else if (kind == 3)
 	{
 		p.cfg["key"] = (int64_t)g.below(4); p.cfg["art"] = (int64_t)g.below(3); p.cfg["fc"] = (int64_t)g.below(256); p.cfg["fb"] = (int64_t)g.below(1 << 20);
+		p.cfg["armor"] = g.chance(1, 2) ? 0 : (!faults ? 1 : (int64_t)g.range(1, 7));
 		p.cfg["fault"] = !faults ? 0 : (int64_t)g.below(7);
 	}
 	else if (kind == 1) { unsigned f = (unsigned)g.below(12); p.cfg["fault"] = !faults ? 0 : (c12 ? (g.chance(1, 2) ? 2 : 6) : (f < 4 ? 0 : (int64_t)(1 + (f - 4) % 6))); }
@@ -873,7 +926,7 @@ int main(int argc, char **argv)
 	sc.name = "pgp";
 	sc.real_components = "src/CallasDonnerhackeFinneyShawThayerRFC4880.cc: signature preparation, document hashing, RSA/DSA/ECDSA sign and verify wrappers, packet encoders, SignatureParse/MessageParse and the sub-packet decoders, TMCG_OpenPGP_Signature::CheckValidity/VerifyData, CFB+MDC and AEAD (OCB/EAX) encryption and decryption, TMCG_OpenPGP_Message::Decrypt, AsymmetricEncrypt/Decrypt RSA, Elgamal and ECDH (KDFCompute, AES key wrap), PacketPkeskEncode and its decoder, PublicKeyBlockParse with TMCG_OpenPGP_Pubkey::CheckSelfSignatures (key + user ID + positive certification built with PacketSigPrepareSelfSignature/CertificationHash); libgcrypt";
 	sc.stub_components = "the wall clock of the two nodes (per-node simulated clock, jumps), the artefact channel between signer/encryptor and verifier/decryptor; keys are fixed test keys; libgcrypt-internal randomness (DSA/ECDSA nonces, RSA blinding) is outside the seam, so only outcomes enter the fingerprint; document files are real files under build/scratch (no seam for std::ifstream), GnuPG is the installed gpgv binary run as a child process (cases are skipped and counted as probe.gnupg_unavailable when it is missing)";
-	sc.rule = "seeded: detached binary signatures (RSA-2048, DSA-2048, ECDSA P-256, Ed25519) x hash (3 strong, 2 weak) x documents (empty .. 20 kB, mixed line endings) x verifier clock at the boundaries of every validity rule (creation-1, creation, expiry-1, expiry, expiry+1, 25 h +-1 s ahead, signature older than key, clock jump between the checks) against a reference model of the rules, x artefact faults (bit flip in a hashed field / signature value / unhashed area / anywhere, document altered, other key, body truncated with re-encoded length, artefact truncated); SEIPD+MDC messages and AEAD (OCB, EAX; chunk 64..256; lengths around chunk boundaries) x {ciphertext flip, truncation, tag dropped, chunks exchanged or removed, associated data or nonce altered, wrong session key, unprotected packet}; enumerated: signature-packet body truncated at every offset for three key types; distinct = outcome fingerprint per case; whole artefacts (key block = key, user ID, certification; detached signature; SEIPD message) split into packets and damaged structurally: body of any packet truncated / extended with re-encoded length, bit flipped, packet dropped / duplicated / exchanged, then PublicKeyBlockParse+CheckSelfSignatures / SignatureParse+VerifyData / MessageParse+Decrypt; enumerated: every body length 0..299 (thorough 0..599) of every packet of these artefacts; documents in files: the signer hashes a file (text or binary signature; generated lines with LF / CRLF / CR CR LF endings, tabs, NUL and high octets, lines around the 19994-character limit), the stored file loses its tail, gets an octet replaced, inserted or appended, or disappears, the verifier runs Verify(key, filename) - in text mode only damage that changes the canonical form is asserted; cross-check with GnuPG (gpgv 2.2, a second RFC 4880 implementation as verifier node): signatures by the RSA, DSA, ECDSA P-256 and Ed25519 test keys with SHA-256/384/512 over text and binary documents through the octet and the file interface must be GOODSIG in gpgv and BADSIG after one octet of the document changed (enumerated: 4 keys x 3 hashes x 2 modes x 2 interfaces); session keys encrypted to a public key (RSA-2048, ElGamal-2048, ECDH NIST P-256 with KDF SHA-256 / AES-128 key wrap): PKESK + SEIPD message, MessageParse, asymmetric decryption, Message::Decrypt, plaintext compared; faults: bit flipped in the encrypted session key, PKESK body truncated, another RSA recipient key, ECDH key derivation with another recipient fingerprint or hash; a well-formed sub-packet (creation time, expiration, key expiration, key flags, revocable) appended to the unhashed area of a signature must not change what the hashed fields say";
+	sc.rule = "seeded: detached binary signatures (RSA-2048, DSA-2048, ECDSA P-256, Ed25519) x hash (3 strong, 2 weak) x documents (empty .. 20 kB, mixed line endings) x verifier clock at the boundaries of every validity rule (creation-1, creation, expiry-1, expiry, expiry+1, 25 h +-1 s ahead, signature older than key, clock jump between the checks) against a reference model of the rules, x artefact faults (bit flip in a hashed field / signature value / unhashed area / anywhere, document altered, other key, body truncated with re-encoded length, artefact truncated); SEIPD+MDC messages and AEAD (OCB, EAX; chunk 64..256; lengths around chunk boundaries) x {ciphertext flip, truncation, tag dropped, chunks exchanged or removed, associated data or nonce altered, wrong session key, unprotected packet}; enumerated: signature-packet body truncated at every offset for three key types; distinct = outcome fingerprint per case; whole artefacts (key block = key, user ID, certification; detached signature; SEIPD message) split into packets and damaged structurally: body of any packet truncated / extended with re-encoded length, bit flipped, packet dropped / duplicated / exchanged, then PublicKeyBlockParse+CheckSelfSignatures / SignatureParse+VerifyData / MessageParse+Decrypt; enumerated: every body length 0..299 (thorough 0..599) of every packet of these artefacts; documents in files: the signer hashes a file (text or binary signature; generated lines with LF / CRLF / CR CR LF endings, tabs, NUL and high octets, lines around the 19994-character limit), the stored file loses its tail, gets an octet replaced, inserted or appended, or disappears, the verifier runs Verify(key, filename) - in text mode only damage that changes the canonical form is asserted; cross-check with GnuPG (gpgv 2.2, a second RFC 4880 implementation as verifier node): signatures by the RSA, DSA, ECDSA P-256 and Ed25519 test keys with SHA-256/384/512 over text and binary documents through the octet and the file interface must be GOODSIG in gpgv and BADSIG after one octet of the document changed (enumerated: 4 keys x 3 hashes x 2 modes x 2 interfaces); session keys encrypted to a public key (RSA-2048, ElGamal-2048, ECDH NIST P-256 with KDF SHA-256 / AES-128 key wrap): PKESK + SEIPD message, MessageParse, asymmetric decryption, Message::Decrypt, plaintext compared; faults: bit flipped in the encrypted session key, PKESK body truncated, another RSA recipient key, ECDH key derivation with another recipient fingerprint or hash; a well-formed sub-packet (creation time, expiration, key expiration, key flags, revocable) appended to the unhashed area of a signature must not change what the hashed fields say; ASCII armor around the artefacts (ArmorEncode / ArmorDecode): untouched armor must decode to the same octets; the armor text is cut, gets a character replaced, a line deleted or duplicated, a radix-64 character of the body or of the checksum replaced (must not decode to other octets; damage that only turns the optional checksum into trailing octets is not judged), then the decoded octets go through the parsers as before";
 	sc.generate = pgp_generate; sc.execute = pgp_execute; sc.enumerate = pgp_enumerate; sc.worker_init = pgp_init;
 	return runner_main(argc, argv, sc);
 }
